@@ -243,7 +243,7 @@ func runServiceRules(c *Ctx) {
 			continue
 		}
 		valExpr := binderFor(fs.call).bind(fs.st.Val)
-		okVal := strings.Contains(valExpr, "(col:date") && b.headClass(valExpr) == "(string)→(time.Time,error)"
+		okVal := strings.Contains(valExpr, "(col:date") && normClass(b.headClass(valExpr)) == normClass("(string)→(time.Time,error)")
 		guards := map[string]bool{}
 		unguarded := false
 		nOn := 0
@@ -556,7 +556,7 @@ func isDateVal(v ssa.Value, fn *ssa.Function) bool {
 	for i := 0; i < 6 && v != nil; i++ {
 		switch x := v.(type) {
 		case *ssa.Extract:
-			if call, ok := x.Tuple.(*ssa.Call); ok && x.Index == 0 && call.Call.StaticCallee() != nil && fnPkgPath(call.Call.StaticCallee()) == modPath && sigClass(call.Call.StaticCallee()) == "(string)→(time.Time,error)" {
+			if call, ok := x.Tuple.(*ssa.Call); ok && x.Index == 0 && call.Call.StaticCallee() != nil && fnPkgPath(call.Call.StaticCallee()) == modPath && normClass(sigClass(call.Call.StaticCallee())) == normClass("(string)→(time.Time,error)") {
 				if rd, ok := call.Call.Args[0].(*ssa.Call); ok {
 					if ci, _ := resolveColumn(rd.Call.Args[0], 0); ci != nil && ci.name == "date" {
 						return true
